@@ -206,13 +206,13 @@ def draw_kind(rng, i=None):
 # plans
 # ------------------------------------------------------------------------------------------
 class Plan:
-    """JSON: {ep: int | None (every iter_unordered call), items: [positions, taken modulo the number of items],
+    """JSON: {ep: int | None (every iter_unordered call), items: [positions, taken modulo the number of items] | "all",
     kinds: [exception kind per planned item, cyclic], when: first | always | ranks, ranks: [...], where: before | after}"""
 
     def __init__(self, d):
         self.d = dict(d)
         self.ep = d.get("ep")
-        self.items = [int(i) for i in d.get("items", [])]
+        self.items = "all" if d.get("items") == "all" else [int(i) for i in d.get("items", [])]
         self.kinds = list(d.get("kinds") or ["os:EIO"])
         self.when = d.get("when", "first")
         self.ranks = [int(r) for r in d.get("ranks") or []]
@@ -223,7 +223,7 @@ class Plan:
         if n <= 0 or (self.ep is not None and ep != self.ep):
             return {}
         out = {}
-        for k, i in enumerate(self.items):
+        for k, i in enumerate(range(n) if self.items == "all" else self.items):
             out.setdefault(i % n, self.kinds[k % len(self.kinds)])
         return out
 
@@ -255,7 +255,7 @@ def draw_plan(rng, size, max_ep=None, kind_index=None):
     elif how == "some":
         items = sorted(set(rng.randrange(0, 64) for _ in range(rng.choice([2, 3]))))
     else:
-        items = list(range(0, 64))
+        items = "all"
     when = rng.choice(["first", "first", "first", "always", "always", "ranks"])
     ranks = []
     if when == "ranks":
